@@ -111,6 +111,9 @@ func (self *StreamDecoder) Decode(val interface{}) (err error) {
 
 		self.scanned += int64(self.scanp)
 		self.scanp = 0
+	} else if self.err == nil {
+		// More() is false with no error recorded: a ']' or '}' where a value must start
+		self.setErr(SyntaxError{Pos: self.scanp, Src: string(self.buf), Code: types.ERR_INVALID_CHAR})
 	}
 
 	return self.err
